@@ -978,3 +978,6 @@ v("d74-pandas-blocks-pasted-by-position", "C17", PB,
   "            for si in split:\n                if not si[blocks_in.record_keys].equals(sk):\n                    raise ValueError(\"blocks do not all hold the same record keys\")\n", "")
 v("d74-polars-blocks-pasted-by-position", "C17", PM,
   "            for si in split:\n                if si[blocks_in.record_keys].rows() != sk.rows():\n                    raise ValueError(\"blocks do not all hold the same record keys\")\n", "")
+
+v("d75-sqlite-native-percent", "C05", "SQLite.py",
+  '    return f"({e0} - FLOOR({e0} / (1.0 * {e1})) * {e1})"\n\n\ndef _sqlite_logical_or_expr', '    return f"({e0} % {e1})"\n\n\ndef _sqlite_logical_or_expr')
